@@ -43,7 +43,9 @@ var (
 	ErrClosed     = os.ErrClosed
 	ErrCrashed    = errors.New("vos: process crashed (injected)")
 
-	Stderr = os.Stderr
+	// The library's logger writes to "os.Stderr": in check binaries that is a
+	// sink (killed incarnations print FATAL lines), unless VERIF_LIBLOG is set.
+	Stderr = logSink()
 	Stdout = os.Stdout
 	Stdin  = os.Stdin
 )
@@ -441,3 +443,14 @@ func (f *File) Real() *os.File { return f.f }
 
 var _ = fs.ModePerm
 var _ = fmt.Sprint
+
+
+func logSink() *os.File {
+	if os.Getenv("VERIF_LIBLOG") != "" {
+		return os.Stderr
+	}
+	if f, err := os.OpenFile(os.DevNull, os.O_WRONLY, 0); err == nil {
+		return f
+	}
+	return os.Stderr
+}
